@@ -15,7 +15,7 @@ Qed.
 Lemma index_app_l {A} (l r : list A) i : (i < length l)%nat -> index i (l ++ r) = index i l.
 Proof. intro H. unfold index. rewrite nth_error_app1 by assumption. reflexivity. Qed.
 
-Lemma buf_read_lt buf i : (i < length buf)%nat -> exists x, buf_read i buf = Ok x.
+Lemma buf_read_lt buf i : (i < length buf)%nat -> exists x, pv_buf_read i buf = Ok x.
 Proof. apply index_lt. Qed.
 
 Lemma slice_from_ok {A} (l : list A) a : (a <= length l)%nat -> slice_from a l = Ok (skipn a l).
@@ -32,7 +32,7 @@ Lemma split_at_ok {A} (l : list A) n : (n <= length l)%nat -> split_at n l = Ok 
 Proof. intro H. unfold split_at. destruct (Nat.leb_spec n (length l)); [reflexivity|lia]. Qed.
 
 Lemma buf_get_u16_ok buf i : (i + 2 <= length buf)%nat ->
-  exists a b, buf_read i buf = Ok a /\ buf_read (S i) buf = Ok b /\ buf_get_u16 i buf = Ok (a * 256 + b).
+  exists a b, pv_buf_read i buf = Ok a /\ pv_buf_read (S i) buf = Ok b /\ buf_get_u16 i buf = Ok (a * 256 + b).
 Proof.
   intro H. destruct (buf_read_lt buf i) as [a Ha]; [lia|]. destruct (buf_read_lt buf (S i)) as [b Hb]; [lia|].
   exists a, b. repeat split; try assumption.
@@ -175,9 +175,9 @@ Proof.
   destruct (Nat.leb_spec (length buf) offset); [left; reflexivity|].
   rewrite slice_from_ok by lia. cbn [bind]. unfold new_view.
   destruct (Nat.leb_spec 4 (length (skipn offset buf))) as [H4|H4]; [|left; reflexivity].
-  rewrite skipn_length in H4. unfold mpls_member_get_bos.
+  rewrite skipn_length in H4. unfold pv_mpls_member_get_bos.
   destruct (buf_read_lt (skipn offset buf) 2) as [b Hb]; [rewrite skipn_length; lia|].
-  rewrite Hb. cbn [bind]. right. exists (u8_and b 1). split; [lia|reflexivity].
+  rewrite Hb. cbn [bind]. right. exists (pv_u8_and b 1). split; [lia|reflexivity].
 Qed.
 
 Lemma mpls_collect_total : forall fuel buf offset bos, ((length buf - offset) / 4 + 1 <= fuel)%nat ->
@@ -255,7 +255,7 @@ Qed.
 
 Lemma member_from_ok buf : (4 <= length buf)%nat -> exists m, mpls_member_from buf = Ok m.
 Proof.
-  intro H. unfold mpls_member_from, mpls_member_get_label, mpls_member_get_exp, mpls_member_get_bos, mpls_member_get_ttl.
+  intro H. unfold mpls_member_from, pv_mpls_member_get_label, pv_mpls_member_get_exp, pv_mpls_member_get_bos, pv_mpls_member_get_ttl.
   destruct (buf_read_lt buf 0) as [a Ha]; [lia|]. destruct (buf_read_lt buf 1) as [b Hb]; [lia|].
   destruct (buf_read_lt buf 2) as [c Hc]; [lia|]. destruct (buf_read_lt buf 3) as [d Hd]; [lia|].
   rewrite Ha, Hb, Hc, Hd. cbn [bind]. eauto.
@@ -332,10 +332,10 @@ Proof.
   replace b with (Z.of_nat (Z.to_nat b)) by lia. apply in_map, in_seq. lia.
 Qed.
 
-Lemma exp_bits b : 0 <= b < 256 -> u8_shr (u8_and b 14) 1 = (b / 2) mod 8.
+Lemma exp_bits b : 0 <= b < 256 -> pv_u8_shr (pv_u8_and b 14) 1 = (b / 2) mod 8.
 Proof. intro H. apply Z.eqb_eq. revert b H. apply byte_sweep. vm_compute. reflexivity. Qed.
 
-Lemma bos_bits b : 0 <= b < 256 -> u8_and b 1 = b mod 2.
+Lemma bos_bits b : 0 <= b < 256 -> pv_u8_and b 1 = b mod 2.
 Proof. intro H. apply Z.eqb_eq. revert b H. apply byte_sweep. vm_compute. reflexivity. Qed.
 
 Lemma enc_lse_length e : length (enc_lse e) = 4%nat.
@@ -344,9 +344,9 @@ Proof. reflexivity. Qed.
 Lemma stack_bytes_length st : length (flat_map enc_lse st) = (4 * length st)%nat.
 Proof. induction st as [|e t IH]; [reflexivity|]. cbn [flat_map]. rewrite app_length, IH, enc_lse_length. cbn [length]. lia. Qed.
 
-Lemma member_bos_enc e rest : lse_wf e -> mpls_member_get_bos (enc_lse e ++ rest) = Ok (lse_s e).
+Lemma member_bos_enc e rest : lse_wf e -> pv_mpls_member_get_bos (enc_lse e ++ rest) = Ok (lse_s e).
 Proof.
-  intros (Hl & He & Hs & Ht). unfold mpls_member_get_bos, enc_lse, buf_read, index. cbn [app nth_error bind].
+  intros (Hl & He & Hs & Ht). unfold pv_mpls_member_get_bos, enc_lse, pv_buf_read, index. cbn [app nth_error bind].
   rewrite bos_bits by lia. f_equal. lia.
 Qed.
 
@@ -354,7 +354,7 @@ Lemma member_from_enc e rest : lse_wf e -> mpls_member_from (enc_lse e ++ rest) 
 Proof.
   intros Hwf. pose proof Hwf as (Hl & He & Hs & Ht).
   unfold mpls_member_from. rewrite (member_bos_enc e rest Hwf).
-  unfold mpls_member_get_label, mpls_member_get_exp, mpls_member_get_ttl, enc_lse, buf_read, index.
+  unfold pv_mpls_member_get_label, pv_mpls_member_get_exp, pv_mpls_member_get_ttl, enc_lse, pv_buf_read, index.
   cbn [app nth_error bind]. rewrite exp_bits by lia.
   unfold from_be_bytes. cbn [fold_left]. rewrite Z.shiftr_div_pow2 by lia. change (2 ^ 4) with 16.
   unfold expected_member.
@@ -433,7 +433,7 @@ Lemma object_length_enc o rest : obj_wf o ->
 Proof.
   intro H. apply obj_len_bound in H.
   unfold extension_object_get_length, buf_get_u16, enc_object. cbn [app buf_get_bytes].
-  unfold buf_read, index. cbn [nth_error bind]. unfold from_be_bytes. cbn [fold_left]. f_equal. lia.
+  unfold pv_buf_read, index. cbn [nth_error bind]. unfold from_be_bytes. cbn [fold_left]. f_equal. lia.
 Qed.
 
 Lemma object_payload_enc o rest : obj_wf o -> extension_object_payload (enc_object o ++ rest) = Ok (obj_payload o).
@@ -486,7 +486,7 @@ Lemma extension_from_object_enc o rest : obj_wf o ->
 Proof.
   intro H. unfold extension_from_object, unknown_extension_from.
   rewrite (object_payload_enc o rest H).
-  unfold extension_object_get_class_num, extension_object_get_class_subtype, buf_read, index, enc_object.
+  unfold extension_object_get_class_num, extension_object_get_class_subtype, pv_buf_read, index, enc_object.
   cbn [app nth_error bind].
   destruct o as [t st|c t p]; cbn [obj_class obj_ctype obj_payload expected_extension] in *.
   - change (1 =? 1) with true. cbv iota. destruct H as (_ & Hne & Hst & _).
@@ -521,8 +521,8 @@ Proof.
   unfold extensions_try_from, new_view at 1. cbn [app length Nat.leb bind].
   unfold extensions_header, slice. cbn [Nat.leb length andb Nat.sub skipn firstn bind].
   unfold new_view at 1. cbn [length Nat.leb bind].
-  unfold extension_header_get_version, buf_read, index. cbn [nth_error bind].
-  change (u8_shr (u8_and 32 240) 4) with 2. change (negb (2 =? ICMP_EXTENSION_VERSION)) with false. cbv iota.
+  unfold extension_header_get_version, pv_buf_read, index. cbn [nth_error bind].
+  change (pv_u8_shr (pv_u8_and 32 240) 4) with 2. change (negb (2 =? ICMP_EXTENSION_VERSION)) with false. cbv iota.
   unfold extensions_objects.
   pose proof (objects_collect_enc objs [32; 0; c / 256; c mod 256]
                (iter_fuel (32 :: 0 :: c / 256 :: c mod 256 :: ext_body objs)) H) as Hc.
@@ -621,12 +621,12 @@ Proof.
 Qed.
 
 Lemma built_header fam fixed l rest : length fixed = 7%nat ->
-  buf_read (LENGTH_OFFSET fam) (icmp_head fam fixed l ++ rest) = Ok l /\
+  pv_buf_read (LENGTH_OFFSET fam) (icmp_head fam fixed l ++ rest) = Ok l /\
   slice_from 8 (icmp_head fam fixed l ++ rest) = Ok rest /\
   (8 <= length (icmp_head fam fixed l ++ rest))%nat.
 Proof.
   intro H. do 8 (destruct fixed as [|? fixed]; try discriminate).
-  destruct fam; unfold icmp_head, rfc4884_length_octet, LENGTH_OFFSET, buf_read, index, slice_from;
+  destruct fam; unfold icmp_head, rfc4884_length_octet, LENGTH_OFFSET, pv_buf_read, index, slice_from;
     cbn [firstn skipn app nth_error length Nat.leb]; repeat split; lia.
 Qed.
 
